@@ -99,4 +99,24 @@ for mod in mods:
                 out["dispatch"][q] = table
     out["consts"][mod.__name__] = consts
 
+
+
+def describe(v):
+    """shape of the initial value of an instance attribute (for 'reset restores the initial state' obligations)"""
+    if v is None or isinstance(v, (bool, int, str)):
+        return {"kind": "const", "value": v}
+    if isinstance(v, (set, frozenset, list, tuple, dict)):
+        return {"kind": type(v).__name__, "len": len(v)}
+    if type(v).__name__ == "SmtLibExecutionCache":
+        return {"kind": "cache", "keys": {k: [str(x) for x in st] for k, st in v.keys.items()}, "definitions": len(v.definitions)}
+    return {"kind": "object", "type": "%s.%s" % (type(v).__module__, type(v).__qualname__)}
+
+
+out["fresh"] = {}
+try:
+    from pysmt.smtlib.parser.parser import SmtLibParser
+    out["fresh"]["pysmt.smtlib.parser.parser.SmtLibParser"] = {k: describe(v) for k, v in vars(SmtLibParser(env)).items()}
+except BaseException as ex:
+    out["errors"]["fresh:SmtLibParser"] = type(ex).__name__
+
 json.dump(out, sys.stdout)
